@@ -86,7 +86,33 @@ def reach_with_context(prog, entries, select_edges):
     return seen
 
 
+def r2(R):
+    """clean failure of the string entry points: the certificate analysis of C16 over the text-facing layer"""
+    import c16
+    prog = R.prog
+    R.rule("C17-R2", "clean failure: every panic-capable string/slice/unwrap construct of the text-facing layer (parser, error "
+                     "rendering, request execution, plan lowering, filter types) reachable from the string entry points carries a "
+                     "certificate or an audited lemma")
+    ents = []
+    for e in ("execute_query::execute_sparql_query", "execute_query::execute_sparql_update", "SparqlDatabase::execute_update"):
+        b = R.body("C17-R2", e, crate="kolibrie")
+        if b is not None:
+            ents.append(b)
+    if not ents:
+        return
+    files = ("kolibrie/src/parser.rs", "kolibrie/src/error_handler.rs", "kolibrie/src/execute_query.rs",
+             "kolibrie/src/streamertail_optimizer/utils.rs", "kolibrie/src/streamertail_optimizer/types.rs")
+    bodies = c16.scope_bodies(prog, ents, files)
+    R.floor("C17-R2", "text-layer bodies reachable from the string entry points", len(bodies), 200)
+    c16.certify(R, prog, bodies, "C17-R2")
+
+
 def run(R):
+    r1(R)
+    r2(R)
+
+
+def r1(R):
     prog = R.prog
     R.rule("C17-R1", "mutation unreachability: from the query-only entry points no body that mutably projects the stored "
                      "dataset_index is reachable (context cut: text already accepted by the SELECT-only parser cannot take an update arm); "
